@@ -26,6 +26,8 @@ enum Op {
     Rec(usize, f64),
     /// n values 0, 1, .., n-1 into one histogram (more than one 64-slot bucket block between two snapshots)
     RecMany(usize, usize),
+    /// counter.absolute(v): the counter becomes at least v (a lower v changes nothing)
+    Abs(usize, u64),
     Snapshot,
 }
 
@@ -66,6 +68,8 @@ fn alphabet() -> Vec<Op> {
         Op::Inc(2, 5),
         Op::Inc(4, 1),
         Op::Inc(5, 3),
+        Op::Abs(0, 1),
+        Op::Abs(0, 9),
         Op::Set(0, 1.5),
         Op::Rec(0, 1.0),
         Op::Rec(0, 2.0),
@@ -113,6 +117,11 @@ impl Model {
             Op::Inc(i, v) => {
                 self.register(K::C, &mk_key(i));
                 *self.counters.get_mut(&canon(&mk_key(i))).unwrap() += v;
+            }
+            Op::Abs(i, v) => {
+                self.register(K::C, &mk_key(i));
+                let c = self.counters.get_mut(&canon(&mk_key(i))).unwrap();
+                *c = (*c).max(v);
             }
             Op::Set(i, v) => {
                 self.register(K::G, &mk_key(i));
@@ -193,6 +202,7 @@ fn apply_real(rec: &DebuggingRecorder, op: Op) {
         },
         Op::Inc(i, v) => rec.register_counter(&mk_key(i), &META).increment(v),
         Op::Set(i, v) => rec.register_gauge(&mk_key(i), &META).set(v),
+        Op::Abs(i, v) => rec.register_counter(&mk_key(i), &META).absolute(v),
         Op::Rec(i, v) => rec.register_histogram(&mk_key(i), &META).record(v),
         Op::RecMany(i, n) => {
             let h = rec.register_histogram(&mk_key(i), &META);
@@ -675,7 +685,7 @@ fn main() {
     driver::main(CheckDef {
         prop: "C19",
         level: "model_checking",
-        rule: "E3: every sequence of depth <= 4 (thorough 6) over {63, 64, 65, 130 records into one histogram, one record, 65 records into another, snapshot} (windows around the 64-slot block size of the bucket); every sequence of the stated depth over 19 operations (describe with two different units / without unit and four texts, register of 4 keys incl. an equal key built differently, increments through a pair of equal keys whose two labels share a name and are spelled in either order and the same name under three kinds, counter/gauge/histogram updates, snapshot) on a fresh real DebuggingRecorder, plus a final snapshot; every snapshot compared with a reference (first-registration order, described-only metrics absent, latest description, unit kept, histogram values since the previous snapshot); 450 metrics on one recorder with snapshots at doubling sizes (every map grows several times); all pairs of 3-step macro programs on two threads with local recorders; all programs of <= 2 local scopes (closure or guard, left normally or by a caught panic, optionally one nested scope) over two recorders on one thread, each recorder's snapshot listing exactly the emissions made while it was innermost; E1: all SC interleavings of a recording thread with a snapshotting thread; distinct = distinct snapshots",
+        rule: "E3: every sequence of depth <= 4 (thorough 6) over {63, 64, 65, 130 records into one histogram, one record, 65 records into another, snapshot} (windows around the 64-slot block size of the bucket); every sequence of the stated depth over 19 operations (describe with two different units / without unit and four texts, register of 4 keys incl. an equal key built differently, absolute counter values below and above the current one, increments through a pair of equal keys whose two labels share a name and are spelled in either order and the same name under three kinds, counter/gauge/histogram updates, snapshot) on a fresh real DebuggingRecorder, plus a final snapshot; every snapshot compared with a reference (first-registration order, described-only metrics absent, latest description, unit kept, histogram values since the previous snapshot); 450 metrics on one recorder with snapshots at doubling sizes (every map grows several times); all pairs of 3-step macro programs on two threads with local recorders; all programs of <= 2 local scopes (closure or guard, left normally or by a caught panic, optionally one nested scope) over two recorders on one thread, each recorder's snapshot listing exactly the emissions made while it was innermost; E1: all SC interleavings of a recording thread with a snapshotting thread; distinct = distinct snapshots",
         assumptions: &["E1: sequential consistency, one registry shard"],
         parts,
         run,
